@@ -295,24 +295,39 @@ def check_environment(rnd, stats, seed):
         def get_terminated(self, gs):
             return False
 
-    env = Env(G)
+    class HookEnv(Env):
+        """uses the documented pre/post-step hooks: the pre-step hook edits the supervisor's own state and another node's state"""
+
+        def update_graph_state_pre_step(self, gs, action):
+            ss = gs.step_state[sup.name]
+            bump = jax.lax.bitcast_convert_type(jnp.asarray(action, jnp.float32).reshape(-1)[0], jnp.uint32)
+            new_states = {sup.name: ss.state.replace(h=ss.state.h ^ bump, cnt=ss.state.cnt + 100)}
+            other = [n for n in nodes if n != sup.name][0]
+            new_states[other] = gs.state[other].replace(cnt=gs.state[other].cnt + 7)
+            return gs.replace(state=gs.state.copy(new_states))
+
+        def update_graph_state_post_step(self, gs, action=None):
+            return gs.replace(eps=gs.eps)  # identity, but exercised
+
     V = []
-    gs, obs, info = env.reset(jax.random.PRNGKey(seed))
-    step = jax.jit(env.step)
-    gstep = jax.jit(G.step)
-    for i in range(min(5, G.max_steps - 1)):
-        a = jnp.array([rnd.uniform(-1, 1)], jnp.float32)
-        ss = gs.step_state[sup.name]
-        out = env.get_output(gs, a)
-        ref_gs, _ = gstep(gs, ss, out)
-        gs2, obs, r, te, tr, info = step(gs, a)
-        st = Counter()
-        d = c09.tree_diff(gs2, ref_gs, st)
-        stats["environment_steps_checked"] += 1
-        if d:
-            V.append(dict(clause="environment_step_not_graph_step", step=i, diffs=d))
-            break
-        gs = gs2
+    for env in (Env(G), HookEnv(G)):
+        hook = isinstance(env, HookEnv)
+        gs, obs, info = env.reset(jax.random.PRNGKey(seed))
+        step = jax.jit(env.step)
+        gstep = jax.jit(G.step)
+        for i in range(min(5, G.max_steps - 1)):
+            a = jnp.array([rnd.uniform(-1, 1)], jnp.float32)
+            out = env.get_output(gs, a)
+            gs_pre = env.update_graph_state_pre_step(gs, a)
+            ref_gs, _ = gstep(gs_pre, gs_pre.step_state[sup.name], out)
+            gs2, obs, r, te, tr, info = step(gs, a)
+            st = Counter()
+            d = c09.tree_diff(gs2, ref_gs, st)
+            stats["environment_steps_checked"] += 1
+            if d:
+                V.append(dict(clause="environment_step_not_graph_step", step=i, diffs=d, pre_step_hook=hook))
+                break
+            gs = gs2
     return V
 
 
@@ -357,4 +372,4 @@ def run_case(case):
 
 def plan(tier, seed):
     n, per = (12, 4) if tier == "quick" else (120, 8)
-    return [dict(name=f"w-{i}", spec_seed=seed * 100271 + i, n=per, env=(i % 3 == 0), timeout=900) for i in range(n)]
+    return [dict(name=f"w-{i}", spec_seed=seed * 100271 + i, n=per, env=(i % 2 == 0), timeout=900) for i in range(n)]
